@@ -7,7 +7,7 @@ META = {
     "driver_id": "Edit",
     "coq_targets": ["Props/C06.vo", "Extract/Extract_Edit.vo"],
     "technique": 'Coq invariant / refinement proofs over the executable edit-machine model + step-by-step differential correspondence of the extracted model with the implementation + direct oracle on the implementation',
-    "level_text": 'Proved in Coq over the executable edit-machine model (Props/C06.v, all closed under the global context): W_book (both lookups list exactly the nodes carrying each id, non-empty, duplicate free, every carried id has an entry and is <= the recorded maximum) is preserved by each of the seven basic actions - C06_book_add_node (new node id), C06_book_del_node, C06_book_edge_attr_seg (AddEdge, DeleteEdge, UpdateNodeAttrs, UpdateNodeSeg), C06_book_upd_track / C06_book_upd_track_visited (UpdateTrackIDs, on a forward-in-time forest with edge-wise constant lineage id, i.e. when the relabelling walk meets no node twice and all visited nodes share the lineage id of the start node) - and C06_dict_basic (the dictionary well-formedness they rely on is kept by all seven); C06_neighbors (get_track_neighbors returns the latest node of the track before t and the earliest after t, and only reorders one lookup list), C06_sort, C06_has_track_at (true iff a node of that track has that time); C06_fresh_track, C06_fresh_lineage (the next track / lineage id is carried by no node), C06_fresh_node_ids (_get_new_node_ids(k) returns k distinct ids none of which is a node; the loop bound is discharged by pigeonhole). The theorems are per basic action / per query under the stated invariants; reachability of the invariants through whole user actions rests on the other properties (C03, C05) and on the differential harness. C06_step_delete_node / C06_step_add_node: the composite node actions preserve W_book together with the other graph-and-id invariants; C06_run_edge_calls (every state reachable from a well-formed state by any sequence, of any length, of edge-level calls - add / delete edge with and without force, swap, track queries, fresh ids - satisfies the complete invariant WF: dictionaries, forest, track ids, lineage ids, lookups, label/node correspondence, fresh features; induction over the call list); C06_run_node_calls (the same reachability statement with UserAddNode and UserDeleteNode included, accepted or refused, each UserAddNode respecting its documented preconditions - integer time / track id, no caller-supplied lineage id, and with a segmentation a non-zero id and background pixels of its own frame; Proofs/EditWFNodeExample.v shows three accepted calls outside these preconditions that break the invariant); C06_sessions (from a well-formed state with an empty history, EVERY state reached along ANY sequence - of any length - of edge / node calls, undos and redos, accepted or refused, satisfies the complete invariant WF; hypotheses: every active managed feature is registered, and the documented per-call preconditions hold when each call is made); C06_paint and C06_run_paint_calls (every accepted paint / erase stroke on a well-formed state yields a well-formed state, with no precondition on the stroke; reachability over edge / node / stroke calls, excluding only the rolled-back refusal of a non-forced stroke with a new label over a foreign node).',
+    "level_text": 'Proved in Coq over the executable edit-machine model (Props/C06.v, all closed under the global context): W_book (both lookups list exactly the nodes carrying each id, non-empty, duplicate free, every carried id has an entry and is <= the recorded maximum) is preserved by each of the seven basic actions - C06_book_add_node (new node id), C06_book_del_node, C06_book_edge_attr_seg (AddEdge, DeleteEdge, UpdateNodeAttrs, UpdateNodeSeg), C06_book_upd_track / C06_book_upd_track_visited (UpdateTrackIDs, on a forward-in-time forest with edge-wise constant lineage id, i.e. when the relabelling walk meets no node twice and all visited nodes share the lineage id of the start node) - and C06_dict_basic (the dictionary well-formedness they rely on is kept by all seven); C06_neighbors (get_track_neighbors returns the latest node of the track before t and the earliest after t, and only reorders one lookup list), C06_sort, C06_has_track_at (true iff a node of that track has that time); C06_fresh_track, C06_fresh_lineage (the next track / lineage id is carried by no node), C06_fresh_node_ids (_get_new_node_ids(k) returns k distinct ids none of which is a node; the loop bound is discharged by pigeonhole). The theorems are per basic action / per query under the stated invariants; reachability of the invariants through whole user actions rests on the other properties (C03, C05) and on the differential harness. C06_step_delete_node / C06_step_add_node: the composite node actions preserve W_book together with the other graph-and-id invariants; C06_run_edge_calls (every state reachable from a well-formed state by any sequence, of any length, of edge-level calls - add / delete edge with and without force, swap, track queries, fresh ids - satisfies the complete invariant WF: dictionaries, forest, track ids, lineage ids, lookups, label/node correspondence, fresh features; induction over the call list); C06_run_node_calls (the same reachability statement with UserAddNode and UserDeleteNode included, accepted or refused, each UserAddNode respecting its documented preconditions - integer time / track id, no caller-supplied lineage id, and with a segmentation a non-zero id and background pixels of its own frame; Proofs/EditWFNodeExample.v shows three accepted calls outside these preconditions that break the invariant); C06_sessions (from a well-formed state with an empty history, EVERY state reached along ANY sequence - of any length - of calls of the WHOLE public interface of the edit machine - edge, swap, node, attribute and stroke edits, undo, redo, queries - accepted or refused, satisfies the complete invariant WF; hypotheses: three configuration facts no call changes, and the documented per-call preconditions of UserAddNode / node calls without segmentation at the moment each call is made; strokes, edge calls, attribute updates, undo and redo have none); C06_paint and C06_run_paint_calls (every accepted stroke yields a well-formed state; every refused stroke too, the rolled-back one included); C06_user_actions_are_generated (the seven composite user actions of the model equal, for all arguments, the code translated on every run from the current user_actions/*.py).',
     "level_note": 'Trusted: Coq kernel, extraction (ExtrOcamlBasic only), OCaml driver drv_Edit.ml, Python harness and oracles. Modelled, not verified: networkx DiGraph dict semantics, numpy indexing, skimage regionprops (symbolic: value = function of key, mask, spacing), psygnal. The theorems are about the hand-written model coq/Model/Edit.v; the tie to /repo is the step-by-step differential execution of the extracted model against the implementation on every run.',
     "design_ref": "DESIGN.md section 9 (C06)",
     "assumptions": ['the caller does not pass a lineage id to UserAddNode (outside its documented domain)', 'track_id and lineage_id features stay enabled during editing sessions', 'labels/ids are positive; times are frame indices within the array'],
@@ -23,6 +23,12 @@ def pre_build(ctx):
     ok, msg = translate_history.regenerate()
     if not ok:
         raise RuntimeError("translator refused action_history.py: %s" % msg)
+    # the composite user actions: re-translate user_actions/*.py (Gen/UserActions_gen.v)
+    import translate_user_actions
+
+    translate_user_actions.regenerate(repo=str(__import__("common").REPO))
+    if not translate_user_actions.LAST.get("ok"):
+        raise RuntimeError("translator refused user_actions/*.py: %s" % translate_user_actions.LAST.get("msg"))
 
 
 def run(ctx):
